@@ -479,3 +479,70 @@ Example budget_examples :
   (let s2 := snd (send_built ex_tight 8 s) in unsent (hosts s2) = [4; 5; 6; 7] /\ pend s2 = [0]) /\
   fst (fst (w_cid ex_cfg ex_tight 8 s)) = OStop.
 Proof. vm_compute. repeat split. Qed.
+
+(* ---------------------------------------------------------------- where the loops sit in a packet of _write_application *)
+Lemma wseq_assoc (a : wres) f g : wseq (wseq a f) g = wseq a (fun s => wseq (f s) g).
+Proof.
+  destruct a as [[o s] tr]. destruct o; cbn [wseq]; try reflexivity.
+  destruct (f s) as [[o2 s2] tr2]. destruct o2; cbn [wseq]; try reflexivity.
+  destruct (g s2) as [[o3 s3] tr3]. now rewrite app_assoc.
+Qed.
+
+Lemma wseq_ext (a : wres) f g : (forall s, f s = g s) -> wseq a f = wseq a g.
+Proof. intros H. destruct a as [[o s] tr]. destruct o; cbn [wseq]; try reflexivity. now rewrite H. Qed.
+
+(* the frames written before the CID loops: ACK, PATH_CHALLENGE, HANDSHAKE_DONE, PATH_RESPONSE ... *)
+Definition w_cid_prefix (c : cfg) (s : Builder.st) (d : app_iter) : wres :=
+  wseq (w_opt (w_ack_in c) s (ai_ack d)) (fun s =>
+  wseq (w_if (ai_challenge d) (w_path_challenge c) s) (fun s =>
+  wseq (w_if (ai_hs_done d) (w_handshake_done c) s) (fun s =>
+  w_list (fun s _ => w_path_response c s) s (ai_responses d)))).
+
+(* ... and after them: STREAMS_BLOCKED, MAX_DATA / MAX_STREAMS, MAX_STREAM_DATA, PING, CRYPTO, DATAGRAM, the stream loop *)
+Definition w_cid_suffix (c : cfg) (s : Builder.st) (d : app_iter) : wres :=
+  wseq (w_list (fun s x => w_streams_blocked c s (fst x) (snd x)) s (ai_blocked d)) (fun s =>
+  wseq (w_list (fun s x => w_conn_limit c s (fst x) (snd x)) s (ai_conn_limits d)) (fun s =>
+  wseq (w_list (fun s x => w_stream_limit c s (fst x) (snd x)) s (ai_stream_limits d)) (fun s =>
+  wseq (w_if (ai_ping_user d) (w_ping c) s) (fun s =>
+  wseq (w_if (ai_ping_probe d) (w_ping c) s) (fun s =>
+  wseq (w_opt (w_crypto c) s (ai_crypto d)) (fun s =>
+  wseq (w_datagrams c s (ai_datagrams d)) (fun s =>
+  w_list (w_sdec c) s (ai_streams d)))))))).
+
+Lemma app_iter_cid_position c s d :
+  w_app_iter c s d =
+  wseq (w_cid_prefix c s d) (fun s1 => wseq (w_cid_loops c s1 (ai_new_cids d) (ai_retire d)) (fun s2 => w_cid_suffix c s2 d)).
+Proof.
+  unfold w_app_iter, w_cid_prefix. rewrite wseq_assoc. apply wseq_ext. intros s1.
+  rewrite wseq_assoc. apply wseq_ext. intros s2. rewrite wseq_assoc. apply wseq_ext. intros s3.
+  apply wseq_ext. intros s4. unfold w_cid_loops. rewrite wseq_assoc. reflexivity.
+Qed.
+
+(* the generated call order of _write_application: NEW_CONNECTION_ID (writer 6) directly before RETIRE_CONNECTION_ID
+   (writer 11), after ACK / PATH_CHALLENGE / HANDSHAKE_DONE / PATH_RESPONSE (0, 7, 5, 8) *)
+Lemma cid_order_generated : firstn 6 ORDER_write_application = [0; 7; 5; 8; 6; 11].
+Proof. reflexivity. Qed.
+
+(* one packet of _write_application in the writer model, with the CID lists of the connection-ID state cs: once the frames
+   before the loops are written (builder state s1), the packet carries exactly the CID frames of Cid.send with the budget
+   computed from the room of s1; when that budget does not cover what is owed the pass ends with QuicPacketBuilderStop
+   right there (nothing after the refused frame), otherwise the rest of the packet follows *)
+Theorem app_packet_cid_frames_l c s0 d cl cs s1 tr0 :
+  ai_new_cids d = cid_news_in cl cs -> ai_retire d = pend cs ->
+  0 <= cl <= CONNECTION_ID_MAX_SIZE -> Forall vok (unsent (hosts cs)) -> Forall vok (pend cs) ->
+  w_cid_prefix c s0 d = (ODone, s1, tr0) -> OI c s1 ->
+  let b := budget_of s1 cl cs in
+  let cidtr := flat_map (ncid_ops cl) (snd (fst (fst (send cs b)))) ++ flat_map ret_ops (snd (fst (send cs b))) in
+  exists s2, OI c s2 /\
+    w_app_iter c s0 d =
+      if b <? owed cs then (OStop, s2, tr0 ++ cidtr ++ [refused_op cs b])
+      else let '(o3, s3, tr3) := w_cid_suffix c s2 d in (o3, s3, tr0 ++ cidtr ++ tr3).
+Proof.
+  intros En Er Hcl Hu Hp Epre O1. cbv zeta.
+  destruct (cid_budget_from_builder_l c s1 cl cs O1 Hcl Hu Hp) as [s2 [E [O2 _]]]. cbv zeta in E.
+  exists s2. split; [exact O2|].
+  rewrite app_iter_cid_position, Epre, En, Er. cbn [wseq]. fold (w_cid c s1 cl cs). rewrite E.
+  destruct (budget_of s1 cl cs <? owed cs).
+  - cbn [wseq]. now rewrite <- !app_assoc.
+  - cbn [wseq]. destruct (w_cid_suffix c s2 d) as [[o3 s3] tr3]. now rewrite !app_nil_r, <- !app_assoc.
+Qed.
